@@ -169,7 +169,11 @@ func (t *Task) verifyMirror(mp mirrorPair) {
 	vars := map[string]Val{}
 	if len(args) > 0 {
 		recv := args[0]
-		vars["self"] = Val{K: KIface, S: sApp(t.mkIf(), sInt(int64(t.eng.tagOf(mp.recvT))), recv.S)}
+		// the interface value the call goes through: tag and payload facts as mkIface states them
+		tag := sInt(int64(t.eng.tagOf(mp.recvT)))
+		self := t.fresh("if", "Int")
+		t.assume(tTrue, sAnd(sEq(self, sApp(t.mkIf(), tag, recv.S)), sEq(sApp(t.ifTag(), self), tag), sEq(sApp(t.ifVal(), self), recv.S), sNot(sEq(self, "0"))))
+		vars["self"] = Val{K: KIface, S: self, Dyn: mp.recvT}
 	}
 	sig := mp.method.Type().(*types.Signature)
 	for i := 0; i < sig.Params().Len() && i+1 < len(args); i++ {
